@@ -10,6 +10,9 @@ import (
 
 const sumFilename = "gengo.sum"
 
+// Filename is the name of the sum file in the module root.
+const Filename = sumFilename
+
 func Load(modRoot string) (*File, error) {
 	data, err := os.ReadFile(filepath.Join(modRoot, sumFilename))
 	if err != nil {
